@@ -221,7 +221,11 @@ func (sb *strBuilder) str() Str {
 type Map struct {
 	m    map[string]*mapEntry
 	keyT types.Type
+	// entries whose key is not concrete (distinct from every other key on this path)
+	sym []*mapEntry
 }
+
+func (m *Map) size() int { return len(m.m) + len(m.sym) }
 
 type mapEntry struct {
 	k, v Value
